@@ -184,6 +184,33 @@ pub fn enumerate(cfg: &AttackCfg, r: &RefRun, seed: u64) -> Vec<C03Sub> {
             _ => {}
         }
     }
+    // (h) a corrupted evaluator announces a masked value for an input wire of an honest party and
+    // uses that value itself afterwards (two taps, live adversary): every honest party also holds
+    // the owner's own announcement for that wire and must notice the conflict
+    if c == e {
+        for (w, owner) in &input_owner {
+            if *owner == c {
+                continue;
+            }
+            for x in [1u8, 2u8] {
+                out.push(C03Sub {
+                    spec: attacked_spec(
+                        cfg,
+                        AdvMode::Live,
+                        vec![],
+                        vec![
+                            TapSpec { party: c, site: "masked_input_announce".into(), idx: Some(*w), occ: None, xor: vec![x] },
+                            TapSpec { party: c, site: "masked_input_merged".into(), idx: Some(*w), occ: None, xor: vec![3] },
+                        ],
+                        None,
+                        &r.decisions,
+                    ),
+                    kind: "masked-inputs:foreign-wire(tap)".into(),
+                    victims: (0..n).filter(|p| *p != c).collect(),
+                });
+            }
+        }
+    }
     // (e) the share bit a garbler garbles into the rows, through the tap (live adversary)
     if c != e {
         for w in &and_insts {
